@@ -40,6 +40,8 @@ fn parse_sink(s: &str) -> Option<Sink> {
 fn parse_src(s: &str) -> Option<Src> {
     if let Some(r) = s.strip_prefix('w') { return r.parse().ok().map(Src::W); }
     if let Some(r) = s.strip_prefix('r') { return r.parse().ok().map(Src::R); }
+    if let Some(r) = s.strip_prefix('s') { return r.parse().ok().map(Src::S); }
+    if let Some(r) = s.strip_prefix('y') { return r.parse().ok().map(Src::Y); }
     if let Some(r) = s.strip_prefix('l') {
         let p: Vec<&str> = r.split('.').collect();
         if p.len() == 3 {
